@@ -32,7 +32,7 @@ import (
 
 type SharedOp struct {
 	Conn int    `json:"conn"`
-	Kind string `json:"kind"` // testreq | bad | peer-logout | local-logout | app-send
+	Kind string `json:"kind"` // testreq | bad | peer-logout | local-logout | app-send | relogon (after a peer-logout: the peer logs on again on the same connection under another CompID)
 }
 
 type C05SharedCase struct {
@@ -51,6 +51,7 @@ func genC05Shared(t *rapid.T) *C05SharedCase {
 	c := &C05SharedCase{Buf: rapid.SampledFrom([]int{0, 1, 10}).Draw(t, "buf"), Conns: rapid.IntRange(2, 3).Draw(t, "conns"),
 		ShareSettings: rapid.Bool().Draw(t, "shareSettings")}
 	gone := map[int]bool{}
+	loggedOut := map[int]bool{}
 	op := func(lbl string, not int) (SharedOp, bool) {
 		var cand []int
 		for i := 0; i < c.Conns; i++ {
@@ -62,7 +63,18 @@ func genC05Shared(t *rapid.T) *C05SharedCase {
 			return SharedOp{}, false
 		}
 		o := SharedOp{Conn: rapid.SampledFrom(cand).Draw(t, lbl+"Conn"), Kind: rapid.SampledFrom(sharedKinds).Draw(t, lbl+"Kind")}
-		if o.Kind == "peer-logout" || o.Kind == "local-logout" {
+		if loggedOut[o.Conn] {
+			if lbl == "held" {
+				return SharedOp{}, false
+			}
+			o.Kind = "relogon"
+			loggedOut[o.Conn] = false
+			return o, true
+		}
+		if o.Kind == "peer-logout" {
+			loggedOut[o.Conn] = true
+		}
+		if o.Kind == "local-logout" {
 			gone[o.Conn] = true
 		}
 		return o, true
@@ -111,6 +123,16 @@ func checkC05Shared(c *C05SharedCase, rec *evid.Rec) (vs []pbt.Violation) {
 	defer done()
 	streams := make([][]byte, c.Conns)
 	heldPending, meanwhileRan := false, 0
+	type idCut struct {
+		off int
+		id  string
+	}
+	cuts := make([][]idCut, c.Conns) // from stream offset off on, the connection's messages go to identity id
+	peerID := make([]string, c.Conns)
+	for i := range peerID {
+		peerID[i] = fmt.Sprintf("PEER%d", i)
+	}
+	relogons := 0
 	_, trouble := rig.Bubble(outerT, func() {
 		cfg := rig.Cfg{Role: "acceptor", HBMin: 1, HBMax: 60, HBInt: 30, Methods: []string{"0"}, Approve: "all", CloseTimeoutMs: 100, Buf: c.Buf,
 			Sender: "LIB", Target: "PEER", User: "alice", Pass: "secret"}
@@ -134,7 +156,7 @@ func checkC05Shared(c *C05SharedCase, rec *evid.Rec) (vs []pbt.Violation) {
 		})
 		conns := make([]*netsim.Conn, c.Conns)
 		seqs := make([]int, c.Conns)
-		peer := func(i int) string { return fmt.Sprintf("PEER%d", i) }
+		peer := func(i int) string { return peerID[i] }
 		in := func(i int, m *rig.InMsg) {
 			seqs[i]++
 			m.Seq, m.Sender, m.Target = fmt.Sprint(seqs[i]), peer(i), "LIB"
@@ -159,6 +181,12 @@ func checkC05Shared(c *C05SharedCase, rec *evid.Rec) (vs []pbt.Violation) {
 				in(i, &rig.InMsg{Type: rig.THeartbeat, Damage: "checksum", DamageBy: 7})
 			case "peer-logout":
 				in(i, &rig.InMsg{Type: rig.TLogout})
+			case "relogon":
+				// what has been written so far went to the old identity
+				cuts[i] = append(cuts[i], idCut{len(conns[i].Stream()), peerID[i] + "x"})
+				peerID[i] += "x"
+				in(i, &rig.InMsg{Type: rig.TLogon, Fields: []rig.Tok{rig.F(rig.TagEncryptMethod, "0"), rig.F(rig.TagHeartBtInt, "30"),
+					rig.F(rig.TagUsername, "alice"), rig.F(rig.TagPassword, "secret")}})
 			case "local-logout":
 				if async {
 					go func() { _ = sessions[i].Logout() }()
@@ -217,7 +245,15 @@ func checkC05Shared(c *C05SharedCase, rec *evid.Rec) (vs []pbt.Violation) {
 			vs = append(vs, pbt.V("shared:torn", "connection %d: the stream ends with an incomplete message", i))
 		}
 		want := 1
+		off := 0
+		wantID := fmt.Sprintf("PEER%d", i)
 		for k, m := range msgs {
+			for _, ct := range cuts[i] {
+				if off >= ct.off {
+					wantID = ct.id
+				}
+			}
+			off += len(m)
 			o := rig.Decode(m)
 			kinds[o.Type] = true
 			what := fmt.Sprintf("connection %d of %d (sessions built from one session.Opts, settings shared: %v; a Save of connection %d (%s) was held back meanwhile), message %d", i, c.Conns, c.ShareSettings, c.Held.Conn, c.Held.Kind, k+1)
@@ -225,7 +261,7 @@ func checkC05Shared(c *C05SharedCase, rec *evid.Rec) (vs []pbt.Violation) {
 				vs = append(vs, pbt.V("shared:framing", "%s: %v: %s", what, err, o.String()))
 				break
 			}
-			if tgt, _ := o.Get(rig.TagTargetCompID); tgt != fmt.Sprintf("PEER%d", i) {
+			if tgt, _ := o.Get(rig.TagTargetCompID); tgt != wantID {
 				vs = append(vs, pbt.V("shared:target-comp-id", "%s carries TargetCompID %q: %s", what, tgt, o.String()))
 				break
 			}
@@ -242,6 +278,12 @@ func checkC05Shared(c *C05SharedCase, rec *evid.Rec) (vs []pbt.Violation) {
 		if len(vs) > 0 {
 			break
 		}
+	}
+	for i := range cuts {
+		relogons += len(cuts[i])
+	}
+	if relogons > 0 {
+		rec.Hist("shared-opts:relogon-under-another-compid")
 	}
 	nontrivial := heldPending && meanwhileRan >= 1
 	rec.Case(evid.FPs(fmt.Sprint(c.Buf, c.Conns, c.ShareSettings, c.Before, c.Held, c.Meanwhile, c.After)), nontrivial)
